@@ -101,7 +101,7 @@ def judge(c, impl, model, cfg, tally):
     return fs
 
 
-def collect(ctx, n, gen_kwargs, prefix="c01", configs=None, strict_reason=False):
+def collect(ctx, n, gen_kwargs, prefix="c01", configs=None, strict_reason=False, per_result=None):
     """generate programs, run them on /repo (several circuit configurations) and on the Lean source semantics;
     returns (failures, tally, generator statistics, sample cases)"""
     failures = []
@@ -121,7 +121,7 @@ def collect(ctx, n, gen_kwargs, prefix="c01", configs=None, strict_reason=False)
             if r is not None and (r.get("hang") or "died" in r):
                 failures.append(Failure("oracle", prefix + ":compile-hangs-or-aborts", f"compiling / evaluating does not return: {r}", {"op": "c01", "seed": c["seed"], "gen": c["gen"], "src": c["src"]}, None, r))
                 continue
-            for f in judge(c, r, model.get(c["id"]), f"{kind},dedup={dedup}", tally):
+            for f in judge(c, r, model.get(c["id"]), f"{kind},dedup={dedup}", tally) + (per_result(c, r, f"{kind},dedup={dedup}") if per_result else []):
                 f.signature = f.signature.replace("c01:", prefix + ":", 1)
                 failures.append(f)
     del tally["strict_reason"]
